@@ -490,7 +490,8 @@ func (m *monC16) judgeAllocation(ctx sdk.Context) {
 func (m *monC16) judgeCommission(a, b *provRewardSnap, expectedPaid map[string]sdk.DecCoins) {
 	w := m.w
 	// recompute per validator the commission it should have accrued from ICS payouts in this block
-	want := map[string]sdk.DecCoins{}
+	// operator -> denom -> amount; zero amounts are kept (an explicit zero rate means "no commission", which has to be observed too)
+	want := map[string]map[string]math.LegacyDec{}
 	h := b.height
 	for id, credits := range a.credits {
 		if _, hasClient := a.sets[id]; !hasClient || (b.phases[id] == phDeleted && a.phases[id] != phDeleted) {
@@ -521,17 +522,27 @@ func (m *monC16) judgeCommission(a, b *provRewardSnap, expectedPaid map[string]s
 				if !custom {
 					rate = a.valRate[oper]
 				}
-				want[oper] = want[oper].Add(share.MulDec(rate)...)
+				if want[oper] == nil {
+					want[oper] = map[string]math.LegacyDec{}
+				}
+				cur, ok := want[oper][d]
+				if !ok {
+					cur = math.LegacyZeroDec()
+				}
+				want[oper][d] = cur.Add(share.AmountOf(d).Mul(rate))
+				if custom && rate.IsZero() {
+					w.Event("C16", "payouts-under-an-explicit-zero-commission-rate")
+				}
 			}
 		}
 	}
 	for oper, wc := range want {
-		for _, dc := range wc {
-			got := b.commission[oper].AmountOf(dc.Denom).Sub(a.commission[oper].AmountOf(dc.Denom))
+		for denom, amt := range wc {
+			got := b.commission[oper].AmountOf(denom).Sub(a.commission[oper].AmountOf(denom))
 			w.Eval("C16")
 			w.Event("C16", "commissions-checked")
-			if !got.Equal(dc.Amount) {
-				w.Violation("C16", "commission-not-per-consumer-rate", map[string]any{"validator": oper, "denom": dc.Denom, "got": got.String(), "want": dc.Amount.String()})
+			if !got.Equal(amt) {
+				w.Violation("C16", "commission-not-per-consumer-rate", map[string]any{"validator": oper, "denom": denom, "got": got.String(), "want": amt.String()})
 			}
 		}
 	}
